@@ -23,7 +23,13 @@ import (
 
 // Run the given code in a new Virtual Machine and return the result.
 func Run(ctx context.Context, main *compiler.Code, options ...Option) (object.Object, error) {
-	machine := New(main, options...)
+	// Build the VM with createVM rather than New, so that a global that
+	// can't be converted to a Risor object is returned as an error.
+	machine, err := createVM(options)
+	if err != nil {
+		return nil, err
+	}
+	machine.main = main
 	if err := machine.Run(ctx); err != nil {
 		return nil, err
 	}
